@@ -5,6 +5,8 @@ read together with the reading frames; ``World`` is the single ``allowed(obj, na
 consulted by (a) the template-class hooks ``guarded_getattr``/``guarded_getitem`` and (b) an
 AccessControl ``SecurityPolicy`` (expression item access, ``_.getattr``, builtin ``getattr``,
 guarded iteration and the ``RestrictedDTML`` mix-in all end there).  Every decision is logged.
+``source_of`` presents a list of items as each kind of iterable a dtml-in accepts; ``PIter`` /
+``PGet`` are the two minimal iterable protocols.
 """
 import os
 import random
